@@ -291,6 +291,10 @@ func (prop) Generate(rng *sim.Rng, tier string, runIndex int) driver.Scenario {
 	if rng.Intn(8) == 0 {
 		sc.Debris = append(sc.Debris, []string{"temp", "extract", "extracttemp", "lock"}[rng.Intn(4)])
 	}
+	if len(sc.Debris) > 0 && rng.Intn(3) == 0 && len(sc.Reqs) > 0 {
+		// clearing away what the killed request left fails
+		sc.Reqs[0].Faults = append(sc.Reqs[0].Faults, simos.Fault{K: "fserr-remove", At: -1, Arg: rng.Intn(3)})
+	}
 	if sc.Kind == "wasi" && rng.Intn(4) == 0 {
 		// the SDK's parent directory is long-lived: it may hold another release
 		// or the rest of a half-removed copy, without the wanted sub-directory
@@ -1042,7 +1046,7 @@ func (prop) Describe() driver.Description {
 		// across processes in this sandbox; four workers is the measured optimum
 		Workers:    4,
 		RunTimeout: 600,
-		FaultKinds: []string{"process-crash", "fs-error", "short-write", "net-connect-error", "net-bad-status", "net-body-error", "net-truncated-body", "net-flipped-byte"},
+		FaultKinds: []string{"process-crash", "fs-error", "fs-error-on-removal", "short-write", "net-connect-error", "net-bad-status", "net-body-error", "net-truncated-body", "net-flipped-byte"},
 	}
 	if !haveXz {
 		d.Assumptions = append(d.Assumptions, "xz is not installed: the .tar.xz format was NOT exercised in this run")
